@@ -638,8 +638,15 @@ def gen_cases(rng, tier, h):
                 m = rng.pick([1, 2, 5, 20])
                 if budget >= 2 * m:
                     budget -= 2 * m
-                    c.append("sched_lv %d" % m)      # named closures handed to schedule() twice each
-                    c.append("wait_all")
+                    if rng.chance(0.5):
+                        c.append("sched_lv %d" % m)      # named closures handed to schedule() twice each
+                        c.append("wait_all")
+                    else:
+                        # closures whose owned state schedules a follow-up from its destructor, then more scheduling
+                        c.append("sched_dtor %d" % m)
+                        c.append("wait_all")
+                        c.append("sched %d plain 0" % rng.pick([1, 3]))
+                        c.append("wait_all")
             elif r < 0.52:
                 c.append("async %s %d" % (rng.pick(KINDS_A), rng.randrange(1, 500)))
             else:
@@ -659,7 +666,7 @@ def nontrivial(case):
         w = l.split()
         if w[0] == "sched":
             pend += int(w[1]) * (1 + int(w[3]))
-        elif w[0] == "sched_lv":
+        elif w[0] in ("sched_lv", "sched_dtor"):
             pend += 2 * int(w[1])
         elif w[0] == "wait_all":
             if pend >= 2:
